@@ -207,7 +207,7 @@ NT_Q = [I(8, 1), I(8, 3), I(16, 1), I(32, 2), I(64, 1), I(64, 2)]
 NT_T = [I(8, 2), I(16, 3), I(32, 1), I(64, 3), I(8, 17)]
 both('C19', 'c19_from_prim', NT_Q, NT_T, unwind=lambda i: max(i.n, 16) + 2, group='FromPrimitive::from_{u8..u128,i8..i128,usize,isize}',
      bound='all source values, symbolic bit index', cap=600)
-both('C19', 'c19_from_float', NT_Q, NT_T, group='FromPrimitive::from_f32/from_f64',
+both('C19', 'c19_from_float', NT_Q, NT_T, unwind=lambda i: i.bytes + 2, group='FromPrimitive::from_f32/from_f64',
      bound='all 2^32 f32 and 2^64 f64 bit patterns, symbolic bit index', cap=600)
 both('C19', 'c19_to_prim', NT_Q, NT_T, unwind=lambda i: max(i.n, 16) + 2, group='ToPrimitive::to_*, AsPrimitive::as_',
      bound='all values, symbolic bit index', cap=600)
@@ -367,6 +367,8 @@ for tier, insts in (('quick', C17_Q), ('thorough', C17_T)):
                       funcs=f"{nm} Add/Sub/BitAnd/BitOr/BitXor: v op v, &v op v, v op &v, &v op &v, op=, op= &, const twin ({md})", bound='all operand pairs, all 7 forms'))
             add(H('C17', f"c17_shift_forms_{sg}_{i.tag}", 'c17_shift_forms', f"{i.n + 2}, {T}, {i.digit}, {i.n}", tier=tier, inst=i.label, cap=900,
                   funcs=f"{nm} Shl/Shr reference and assign forms for the 12 primitive amount types", bound='all values, all in-range amounts'))
+            add(H('C17', f"c17_shift_forms_panic_{sg}_{i.tag}", 'c17_shift_forms_panic', f"{i.n + 2}, {T}, {i.digit}, {i.n}", tier=tier, inst=i.label, cap=900, kind='panic',
+                  funcs=f"{nm} Shl/Shr reference and assign forms panic for out-of-range amounts of the 12 primitive amount types", bound='all values, all out-of-range amounts'))
             for m in (1, 2):
                 AU, AI = Inst(i.digit, m).U, Inst(i.digit, m).I
                 add(H('C17', f"c17_shift_bnum_{sg}_{i.tag}_m{m}", 'c17_shift_bnum', f"{i.n + 3}, {T}, {i.digit}, {i.n}, {AU}, {AI}, {i.digit}, {m}", tier=tier, inst=i.label, cap=900,
@@ -389,6 +391,79 @@ for i, tier, cap in ((I(8, 1), 'quick', 900), (I(8, 2), 'thorough', 3600)):
 for i, tier in ((I(8, 3), 'quick'), (I(16, 2), 'thorough'), (I(32, 2), 'thorough')):
     add(H('C17', f"c17_digit_div_alpha_{i.tag}", 'c17_digit_ops', f"{i.n + 3}, {i.U}, {i.digit}, {i.n}, any_alpha, true", tier=tier, inst=i.label, cap=1800, core=False,
           funcs='BUint / digit, BUint % digit', bound='value digits over the boundary alphabet, all digit divisors'))
+
+
+# ---------------------------------------------------------------- C18
+both('C18', 'c18_forward_lin', [I(8, 1), I(8, 3), I(64, 1), I(64, 2)], [I(16, 2), I(32, 3), I(64, 3), I(8, 17)], cap=900,
+     group='Checked/Saturating/Wrapping/Overflowing Add+Sub+Neg+Shl+Shr forwarders, Bounded, Zero/One, is_even/odd, PrimInt counts/rotate/swap/endian, signed/unsigned shl/shr',
+     bound='all operands, shift amounts over all of u32 (PrimInt shifts: below BITS), symbolic bit index')
+both('C18', 'c18_signed', [I(8, 1), I(8, 3), I(64, 2)], [I(16, 2), I(32, 3), I(64, 3)], signs=('i',), group='Signed: abs, abs_sub, signum, is_positive, is_negative')
+for i, tier, cap, steps in ((I(8, 1), 'quick', 1200, 13), (I(8, 2), 'thorough', 7200, 24), (I(16, 1), 'thorough', 7200, 24)):
+    for sg, T in (('u', i.U), ('i', i.I)):
+        add(H('C18', f"c18_integer_{sg}_{i.tag}", 'c18_integer', f"{max(steps, 2 * i.bits) + 4}, {T}, {i.digit}, {i.n}, {steps}", tier=tier, cap=cap, inst=i.label,
+              core=(i.bits == 8),
+              funcs=f"{'BUint' if sg == 'u' else 'BInt'} CheckedMul/Div/Rem, CheckedEuclid, Euclid, SaturatingMul, WrappingMul, Pow, MulAdd, Integer::div_floor/mod_floor/div_rem/gcd/lcm/divides/is_multiple_of",
+              bound='all operand pairs; exact i32 oracle'))
+for i, tier in ((I(8, 1), 'quick'), (I(8, 3), 'quick'), (I(64, 2), 'quick'), (I(64, 3), 'thorough'), (I(8, 17), 'thorough')):
+    add(H('C18', f"c18_roots_trivial_{i.tag}", 'c18_roots_trivial', f"{i.n + 3}, {i.std().rsplit(',', 1)[0]}", tier=tier, inst=i.label, cap=900, core=False,
+          funcs='Roots: nth_root(1), roots of 0 and 1', bound='all values for degree 1; values 0 and 1 for every degree >= 1'))
+    add(H('C18', f"c18_roots_panic_{i.tag}", 'c18_roots_panic', f"{i.n + 3}, {i.std().rsplit(',', 1)[0]}", tier=tier, inst=i.label, cap=900, kind='panic', core=False,
+          funcs='Roots: nth_root(0), sqrt / even root of a negative value panic', bound='all values'))
+
+
+# ---------------------------------------------------------------- C10
+def c10_str(i, sg, L, lo, hi, tier, cap=1800, core=False):
+    T = i.U if sg == 'u' else i.I
+    r = f"r{lo}" if lo == hi else f"r{lo}to{hi}"
+    add(H('C10', f"c10_str_{sg}_{i.tag}_{r}_l{L}", 'c10_str', f"{L + 2}, {T}, {i.digit}, {i.n}, {L}, {L}, {lo}, {hi}", tier=tier, cap=cap, inst=i.label, core=core, mem_gb=24,
+          funcs=f"{'BUint' if sg == 'u' else 'BInt'}::from_str_radix" + (' + FromStr' if lo <= 10 <= hi else ''),
+          bound=f"all ASCII strings of length 0..={L}, radix {lo}..={hi}; unwind {L + 2}"))
+
+
+def c10_digits(i, sg, L, lo, hi, tier, cap=1800, core=False):
+    T = i.U if sg == 'u' else i.I
+    r = f"r{lo}" if lo == hi else f"r{lo}to{hi}"
+    add(H('C10', f"c10_digits_{sg}_{i.tag}_{r}_l{L}", 'c10_digits', f"{max(L, 2 * i.bytes) + 3}, {T}, {i.digit}, {i.n}, {L}, {lo}, {hi}", tier=tier, cap=cap, inst=i.label, core=core, mem_gb=24,
+          funcs=f"{'BUint' if sg == 'u' else 'BInt'}::from_radix_be / from_radix_le", bound=f"all digit slices of length 0..={L}, radix {lo}..={hi}"))
+
+
+for sg in ('u', 'i'):
+    c10_str(I(8, 1), sg, 10, 2, 2, 'quick', core=True)
+    c10_str(I(8, 1), sg, 4, 16, 16, 'quick', core=True)
+    c10_str(I(8, 1), sg, 5, 10, 10, 'quick', core=True)
+    c10_str(I(8, 1), sg, 4, 36, 36, 'quick')
+    c10_str(I(8, 1), sg, 3, 2, 36, 'quick')
+    c10_str(I(8, 1), sg, 6, 4, 4, 'thorough')
+    c10_str(I(8, 1), sg, 5, 8, 8, 'thorough')
+    c10_str(I(8, 1), sg, 7, 3, 3, 'thorough')
+    c10_str(I(8, 1), sg, 4, 2, 36, 'thorough', cap=5400)
+    c10_str(I(8, 2), sg, 6, 16, 16, 'thorough', cap=5400)
+    c10_str(I(8, 2), sg, 7, 10, 10, 'thorough', cap=5400)
+    c10_str(I(8, 2), sg, 4, 2, 36, 'thorough', cap=5400)
+    c10_str(I(16, 1), sg, 6, 16, 16, 'thorough', cap=5400)
+    c10_str(I(16, 1), sg, 7, 10, 10, 'thorough', cap=5400)
+    for i in (I(32, 1), I(64, 1)):
+        c10_str(i, sg, 4, 16, 16, 'thorough', cap=3600)
+        c10_str(i, sg, 4, 10, 10, 'thorough', cap=3600)
+    add(H('C10', f"c10_bytes_{sg}_d8x1", 'c10_bytes', f"6, {I(8, 1).U if sg == 'u' else I(8, 1).I}, u8, 1, 3, 10", inst=I(8, 1).label, cap=1800, core=False, mem_gb=24,
+          funcs='parse_bytes (UTF-8 validation + grammar)', bound='all byte strings of length 0..=3, radix 10'))
+c10_digits(I(8, 1), 'u', 10, 2, 2, 'quick', core=True)
+c10_digits(I(8, 1), 'u', 4, 16, 16, 'quick', core=True)
+c10_digits(I(8, 1), 'u', 4, 10, 10, 'quick')
+c10_digits(I(8, 1), 'u', 3, 255, 255, 'quick')
+c10_digits(I(8, 1), 'u', 3, 256, 256, 'quick')
+c10_digits(I(8, 1), 'i', 4, 16, 16, 'quick')
+c10_digits(I(8, 1), 'u', 3, 2, 256, 'thorough', cap=5400)
+c10_digits(I(8, 2), 'u', 6, 16, 16, 'thorough', cap=5400)
+c10_digits(I(8, 2), 'u', 4, 256, 256, 'thorough')
+c10_digits(I(8, 2), 'u', 6, 10, 10, 'thorough', cap=5400)
+c10_digits(I(16, 1), 'u', 6, 16, 16, 'thorough', cap=5400)
+c10_digits(I(16, 1), 'u', 4, 256, 256, 'thorough')
+c10_digits(I(32, 1), 'u', 6, 256, 256, 'thorough')
+c10_digits(I(64, 1), 'u', 4, 10, 10, 'thorough', cap=5400)
+for i, tier in ((I(8, 1), 'quick'), (I(64, 2), 'thorough')):
+    add(H('C10', f"c10_radix_panic_{i.tag}", 'c10_radix_panic', f"12, {i.U}, {i.I}", tier=tier, inst=i.label, kind='panic', cap=900, core=False,
+          funcs='from_str_radix / parse_bytes / from_radix_be / from_radix_le with an out-of-range radix', bound='all radices outside 2..=36 (2..=256)'))
 
 
 def by_prop(p):
